@@ -153,7 +153,37 @@ func VerifC15Configured() {
 	verifCheckDiagnosticsOn(opt, ctxAbs[ci].pre+vnd.Str(vnd.Len(vnd.Param("C15.KConf", 1, 2)))+ctxAbs[ci].suf, "", false)
 }
 
+// VerifC15ConfiguredHosts: the relations in host position (address-shaped windows) on top of each
+// non-diagnostic option: where the host parser's own validation errors (non-decimal IPv4 parts,
+// trailing dots, forbidden code points) meet lax host parsing and the other options.
+func VerifC15ConfiguredHosts() {
+	opt := 1 + vnd.Pick(len(diagOptions)-1)
+	ci := vnd.Pick(len(hostCtx))
+	vnd.Cover("configured-parser", true)
+	verifCheckDiagnosticsOn(opt, hostCtx[ci].pre+vnd.StrOver(vnd.Len(vnd.Param("C15.KConfHost", 2, 3)), "0123456789.xXaf:[]g-%_ ")+hostCtx[ci].suf, "", false)
+}
+
+// VerifC15LongHosts: domains at the DNS length limits (labels of 62..65, names of 252..255
+// characters), which the standard neither rejects nor reports (domain to ASCII runs with
+// beStrict false, so VerifyDnsLength is off); first and last character symbolic.
+func VerifC15LongHosts() {
+	n := []int{62, 63, 64, 65, 252, 253, 254, 255}[vnd.Pick(8)]
+	label := ""
+	for len(label) < n-2 {
+		if n > 100 && len(label)%50 == 49 {
+			label += "."
+		} else {
+			label += "a"
+		}
+	}
+	host := vnd.StrOver(1, "aZ9") + label + vnd.StrOver(1, "aZ9-.")
+	opt := []int{0, 1}[vnd.Pick(2)]
+	verifCheckDiagnosticsOn(opt, "https://"+host+"/p", "", false)
+}
+
 func init() {
+	verifHarnesses["VerifC15ConfiguredHosts"] = VerifC15ConfiguredHosts
+	verifHarnesses["VerifC15LongHosts"] = VerifC15LongHosts
 	verifHarnesses["VerifC15HostDigits"] = VerifC15HostDigits
 	verifHarnesses["VerifC15Configured"] = VerifC15Configured
 	verifHarnesses["VerifC15Abs"] = VerifC15Abs
